@@ -159,6 +159,31 @@ theorem inc_in_shape (mi t : Nat) (acts : List (Nat → Act)) (kind : Kind) (i :
       simp only [shape, List.mem_append, List.mem_flatMap, List.mem_range]
       exact Or.inl (Or.inl ⟨i, hi, by simp [upEntries, hm]⟩)
 
+/-- the handler entries of a message bracket: exactly one, carrying the message as the stack left
+    it, if the message survived the stack; none otherwise -/
+theorem shape_handler_filter (mi t : Nat) (acts : List (Nat → Act)) (id : Nat) :
+    (shape mi t acts (.message id)).filter (fun e => e.who == none) =
+      match msgAt acts (some id) acts.length with
+      | some x => [⟨mi, none, .msg, some x, t⟩]
+      | none => [] := by
+  simp only [shape, List.filter_append, filter_flatMap', Kind.msg?]
+  have h1 : (List.range acts.length).flatMap
+      (fun a => (upEntries mi t acts (some id) a).filter (fun e => e.who == none)) = [] := by
+    rw [List.flatMap_eq_nil_iff]
+    intro a _
+    rw [List.filter_eq_nil_iff]
+    intro e he
+    rcases mem_upEntries he with h | ⟨_, _, h⟩ <;> subst h <;> simp [startEntry, incEntry]
+  have h2 : ((List.range acts.length).reverse.map (endEntry mi t)).filter
+      (fun e => e.who == none) = [] := by
+    rw [List.filter_eq_nil_iff]
+    intro e he
+    simp only [List.mem_map] at he
+    obtain ⟨_, _, rfl⟩ := he
+    simp [endEntry]
+  rw [h1, h2]
+  cases msgAt acts (some id) acts.length <;> simp [handlerEntries]
+
 /-! ### exactly once, in order -/
 
 def hookIs (h : Hook) (e : Entry) : Bool := e.hook == h
